@@ -24,7 +24,11 @@ fn populate(m: &Memfs) {
 
 /// After any call the instance must still work
 fn probe(m: &Memfs) -> Result<(), String> {
-    let bad = integrity(&m.verif_dump());
+    // (a call that panicked while it held the lock leaves it poisoned: then even looking at the instance panics)
+    let bad = match catch(|| integrity(&m.verif_dump())) {
+        Ok(b) => b,
+        Err(p) => return Err(format!("probe-panic:{}", p)),
+    };
     if !bad.is_empty() {
         return Err(format!("integrity:{}", bad[0].0));
     }
@@ -249,7 +253,7 @@ fn offsets() -> impl Strategy<Value = i64> {
 }
 
 pub fn run(c: &Ctx) {
-    c.set_rule("(a) every single-path call form of the Memfs alphabet (52 forms: all trait methods, builder variants, handles) on every string over a 22-symbol adversarial alphabet (incl. 'İ' and the Kelvin sign, whose lower-case forms have another byte length, and an upper-case letter) ('/', '.', '~', '$', ':', '{', '}', space, a, 2/3/4-byte chars, newline, NUL, '-', '%', '*', backslash, quote) up to length 2 (quick) / 3 (thorough), from a fresh and from a populated instance (links, loop link, dangling link, non-UTF-8 bytes, cwd below root); two-path forms on all pairs of strings up to length 1 plus specials; seeded random arguments (<=64 symbols, 4 KiB names, 2000-deep '..' chains, any u32 mode / id). After EVERY call: no panic, call returned (CPU watchdog), C03 invariants on the dump, and a probe sequence on the same instance (mkdir_p, write_all, read_all, remove_all, exists) succeeds. (b) every public path helper, StringExt/ToStringExt/IteratorExt/PeekableExt/OptionExt function and user:: getter on the same strings (totality only). (c) read handles driven by seek/read scripts with extreme offsets. (d) every program of length 4 (quick) / 5 (thorough) over 15 forms {open write/append handle, write, flush, drop, remove / remove_all / move_p / replace-by-directory / replace-by-link of the handle's file, set_cwd} on the populated instance: handles that outlive their file must neither panic nor hang nor wedge the instance (probe after every step and after the final drops). (e) every call form at the top, middle and bottom of a 60-level directory chain (deeper than the traversal's descriptor cap) that ends in an empty directory and a file. (f) every call form, plus recursive chmod_b with widening / narrowing / symbolic modes with and without follow, on a bushy tree (directories with several non-empty sub-directories of mode 0o500, a link between them). Non-trivial = argument with a multi-byte character or >=2 special symbols; distinct by (function, argument).");
+    c.set_rule("(a) every single-path call form of the Memfs alphabet (52 forms: all trait methods, builder variants, handles) on every string over a 22-symbol adversarial alphabet (incl. 'İ' and the Kelvin sign, whose lower-case forms have another byte length, and an upper-case letter) ('/', '.', '~', '$', ':', '{', '}', space, a, 2/3/4-byte chars, newline, NUL, '-', '%', '*', backslash, quote) up to length 2 (quick) / 3 (thorough), from a fresh and from a populated instance (links, loop link, dangling link, non-UTF-8 bytes, cwd below root); two-path forms on all pairs of strings up to length 1 plus specials; seeded random arguments (<=64 symbols, 4 KiB names, 2000-deep '..' chains, any u32 mode / id). After EVERY call: no panic, call returned (CPU watchdog), C03 invariants on the dump, and a probe sequence on the same instance (mkdir_p, write_all, read_all, remove_all, exists) succeeds. (b) every public path helper, StringExt/ToStringExt/IteratorExt/PeekableExt/OptionExt function and user:: getter on the same strings (totality only). (c) read handles driven by seek/read scripts with extreme offsets. (d) every program of length 4 (quick) / 5 (thorough) over 15 forms {open write/append handle, write, flush, drop, remove / remove_all / move_p / replace-by-directory / replace-by-link of the handle's file, set_cwd} on the populated instance: handles that outlive their file must neither panic nor hang nor wedge the instance (probe after every step and after the final drops). (e) every call form at the top, middle and bottom of a 60-level directory chain (deeper than the traversal's descriptor cap) that ends in an empty directory and a file. (f) every call form, plus recursive chmod_b with widening / narrowing / symbolic modes with and without follow, on a bushy tree (directories with several non-empty sub-directories of mode 0o500, a link between them and two links into each other's directory). Non-trivial = argument with a multi-byte character or >=2 special symbols; distinct by (function, argument).");
     c.assume("non-UTF-8 OsStr paths are outside the stated domain");
     let max_len = c.tier.pick(2, 3);
     let mut strings = all_strings(ALPHA, max_len);
@@ -441,6 +445,10 @@ pub fn run(c: &Ctx) {
             Op::WriteAll("/w/s2/f".into(), b"3".to_vec()),
             Op::WriteAll("/w/s3/u/f".into(), b"4".to_vec()),
             Op::Symlink("/w/s2/l".into(), "/w/s1".into()),
+            // two links into each other's directory: a cycle for every following traversal that no link closes
+            // by pointing at its own ancestor
+            Op::Symlink("/w/s1/to3".into(), "/w/s3".into()),
+            Op::Symlink("/w/s3/to1".into(), "/w/s1".into()),
         ];
         let mut progs: Vec<Vec<Op>> = vec![];
         for p in ["/w", "/w/s1", "/w/s3", "/"] {
